@@ -253,8 +253,8 @@ SPEC = {
         Workload('ex-L2-3', EX[(2, 3)], quick=0, thorough=_n((2, 3)), exhaustive={'space': 'all multisets of 3 chains, L=2'}),
         Workload('ex-L3-3', EX[(3, 3)], quick=0, thorough=_n((3, 3)), exhaustive={'space': 'all multisets of 3 chains, L=3 (1.72e6 lists)'}),
         Workload('ex-L4-2', EX[(4, 2)], quick=0, thorough=_n((4, 2)), exhaustive={'space': 'all multisets of 2 chains, L=4 (242 556 lists)'}),
-        Workload('random', random_case, quick=2500, thorough=80000),
-        Workload('mpo', mpo_case, quick=500, thorough=15000),
+        Workload('random', random_case, quick=2500, thorough=320000),
+        Workload('mpo', mpo_case, quick=500, thorough=75000),
     ],
     'shards': {'quick': 4, 'thorough': 16},
     'watchdog_s': {'quick': 900, 'thorough': 7200},
